@@ -449,8 +449,9 @@ class OB:
                 return PList([merge([v.items[i] for v in vals]) for i in range(len(v0.items))], v0.kind)
             if all(isinstance(v, (int, float, str, bool, type(None))) for v in vals) and len(set(map(repr, vals))) == 1:
                 return v0
-            if all(isinstance(v, (int, float)) and not isinstance(v, bool) for v in vals):
-                return merge([SV(v) for v in vals])
+            if all((isinstance(v, (int, float)) and not isinstance(v, bool)) or isinstance(v, SV) for v in vals):
+                # python numbers on some paths, symbolic values on others
+                return merge([v if isinstance(v, SV) else SV(float(v)) for v in vals])
             raise Unbound(f"cannot merge path results of types {[type(v).__name__ for v in vals]}")
         return merge([p.result for p in rets]), conds
 
